@@ -1353,6 +1353,18 @@ def install(ex):
             add(getattr(_q, name), "quoter." + name, quoter_contract(name))
         for name in ("UNQUOTER", "PATH_UNQUOTER", "PATH_SAFE_UNQUOTER", "QS_UNQUOTER"):
             add(getattr(_q, name), "unquoter." + name, unquoter_contract(name))
+        try:
+            import yarl._url as _yu
+            from contracts import spec_url as _spu
+
+            def _idna_dec(ex, st, args, kwargs, node):
+                s_ = args[0]
+                ex.assumed_contracts.add("yarl._url:_idna_decode (idna / idna codec: external, an opaque function of the encoded host)")
+                yield opaque_str(st.ctx, "idna_decode", s_), st
+            add(_yu._idna_decode, "idna_decode", _idna_dec)
+            add(_spu.idna_decode, "spec.idna_decode", _idna_dec)
+        except (ImportError, AttributeError):
+            pass
     except ImportError:
         pass
     try:
